@@ -252,6 +252,34 @@ def feat_negated_positive_loop_inside_positive_loop(prog):
     return False
 
 
+def feat_negloop_closed_inside_positive_subcycle(prog):
+    """The shape of the clean-tree defect `negative-loop-closed-inside-positive-subcycle-answered`:
+    a ground clause  p :- .., \\+q, ..  where q lies on a POSITIVE cycle one of whose atoms x depends positively on p
+    (the negative loop is closed from inside the positive sub-cycle), AND either
+      (i)  another clause instance for p comes textually before that clause, or
+      (ii) a ground query/evidence atom g lies on that positive cycle and g itself has a clause with p in its body."""
+    gcs = gp._ground_clauses(prog) or []
+    _, pos, _ = ground_graph(prog)
+    goals = set()
+    for a in prog.queries() + [e[0] for e in prog.evidence()]:
+        if not gp.atom_vars(a):
+            goals.add((a[0], tuple(t[1] for t in a[1])))
+    for i, (_, hs, body) in enumerate(gcs):
+        for sign, q in body:
+            if sign or not _reaches(pos, q, q):
+                continue
+            scc = set(x for x in pos if (x == q or (_reaches(pos, q, x) and _reaches(pos, x, q))))
+            for p in hs:
+                if not any(x != p and (p in pos.get(x, ()) or _reaches(pos, x, p)) for x in scc):
+                    continue
+                if any(p in hs2 for _, hs2, _ in gcs[:i]):
+                    return True
+                for g in goals & scc:
+                    if any(g in hs2 and any(sg and a == p for sg, a in b2) for _, hs2, b2 in gcs):
+                        return True
+    return False
+
+
 ASSERT_RESULTSET = "INTERNAL:AssertionError@eval_nodes.py:__setitem__"
 ASSERT_GETNODE = "INTERNAL:AssertionError@formula.py:get_node"
 
